@@ -154,7 +154,8 @@ def loop_sig(lp):
 
 
 def show_piece(p):
-    rng = " ".join("for %s in [%s %s %s)" % (sym.show(l["var"]), sym.show(l["lo"]), l["cmp"], sym.show(l["hi"])) for l in p["loops"])
+    rng = " ".join(("for %s in [%s %s %s)" % (sym.show(l["var"]), sym.show(l["lo"]), l["cmp"], sym.show(l["hi"]))) if "var" in l else
+                   "while (%s)" % sym.show(l.get("cond", ("unk", "?")))[:60] for l in p["loops"])
     g = (" if " + " && ".join(sym.show(c) for c in p["guards"])) if p["guards"] else ""
     if p["kind"] == "store":
         return "%s%s: %s %s %s" % (rng, g, sym.show(p["lv"]), p["op"], sym.show(p["val"]))
